@@ -133,9 +133,11 @@ def run(ctx):
             if [a.split("/")[0] for a in real] != [a.split("/")[0] for a in anns]:
                 l2 += 1
                 diffs = [(i, a, b) for i, (a, b) in enumerate(zip(real, anns)) if a.split("/")[0] != b.split("/")[0]][:5]
-                ctx.violation("value-correspondence", {"stage": "L2 value annotations: real vs Lean model", "source": src, "curve": curve,
-                                                       "first_differences": diffs, "broken": "correspondence Propagate.valLoop <-> Cfg::propagate_values"}, no_input=True)
-                continue
+                # the correspondence is broken: the interpreter below searches this program for a concrete false claim
+                l2_bad = {"stage": "L2 value annotations: real vs Lean model", "source": src, "curve": curve,
+                          "first_differences": diffs, "broken": "correspondence Propagate.valLoop <-> Cfg::propagate_values"}
+            else:
+                l2_bad = None
             cl = claims(ssa)
             stats["value claims"] += len(cl)
             incomplete = phic.split()[1:] if phic.startswith("incomplete") else []
@@ -172,7 +174,12 @@ def run(ctx):
                                 l1 += 0 if known else 1
                                 ctx.violation(sig, {"stage": "L1 reference interpreter", "source": src, "curve": curve, "inputs": {str(a): str(b) for a, b in cache.items()},
                                                     "node": [key[0], key[1], key[2]], "claimed": claim, "observed": str(v),
-                                                    "hypothesis_PhiComplete": not incomplete, "incomplete_phis": incomplete, "broken": None})
+                                                    "hypothesis_PhiComplete": not incomplete, "incomplete_phis": incomplete,
+                                                    "broken": l2_bad["broken"] if l2_bad else None})
+                                if not known:
+                                    l2_bad = None
+            if l2_bad:
+                ctx.violation("value-correspondence", l2_bad, no_input=True)
             if len(samples) < 2 and cl:
                 samples.append({"source": src[:200], "curve": curve, "claims": len(cl)})
     if not ok:
